@@ -341,6 +341,53 @@ Definition alloc_rejected (st : step) (ps : list piece) : bool :=
   || exceeds pp (sum_N (map (fun f => dec_val (tok_procs f)) fs))
   || exceeds nn (sum_N (map (fun f => match tok_nodes f with Some n => dec_val n | None => 0 end) fs)).
 
+(** * LSF (bsub on CORAL systems + jsrun): what must be read back *)
+(** "[hour:]minute" of bsub -W against the "HH:MM:SS" of the specification:
+    seconds are rounded up to the next minute *)
+Definition hms_minutes (t : str) : option N :=
+  match split_on 58 t with
+  | [h; m; sec] =>
+    match py_nat h, py_nat m, py_nat sec with
+    | Some a, Some b, Some c => Some (a * 60 + b + (c + 59) / 60)
+    | _, _, _ => None
+    end
+  | _ => None
+  end.
+Definition hm_minutes (t : str) : option N :=
+  match split_on 58 t with
+  | [h; m] =>
+    match py_nat h, py_nat m with
+    | Some a, Some b => Some (a * 60 + b)
+    | _, _ => None
+    end
+  | _ => None
+  end.
+Definition is_hms (t : str) : bool := match split_on 58 t with [_; _; _] => true | _ => false end.
+(** a walltime given as H:M:S must come back as the same number of minutes,
+    any other walltime unchanged *)
+Definition lsf_walltime_ok (declared read : option str) : bool :=
+  match declared, read with
+  | None, None => true
+  | Some d, Some r =>
+    if is_hms d then
+      match hms_minutes d, hm_minutes r with
+      | Some x, Some y => x =? y
+      | _, _ => false
+      end
+    else str_eqb d r
+  | _, _ => false
+  end.
+
+(** bsub keys; tasks and gpus are requested per jsrun call, not in the header *)
+Definition lsf_header_keys : list rkey :=
+  [RNodes; RTasks; RQueue; RBank; RReservation; RGpus; RExclusive; RQos].
+Definition effective_lsf (b : batch) (st : step) (k : rkey) : option str :=
+  match k with
+  | RNodes => match effective b st RNodes with Some v => Some v | None => Some (s "1") end
+  | RTasks | RGpus => None
+  | _ => effective b st k
+  end.
+
 (** * The hygiene domain H15 *)
 (** a value that can stand unquoted in a directive or on a command line *)
 Definition safe_char (c : N) : bool :=
@@ -502,6 +549,28 @@ Definition launch_ok_slurm (st : step) (p : piece) (text : str) : bool :=
   | None => false
   end.
 
+(** jsrun: tasks (resource sets), binding, gpus, tasks per rs, rs per node,
+    cpus per rs; the documented defaults are 1 / "rs" *)
+Definition jsrun_keys : list rkey := [RTasks; RGpus; RBind; RBindGpus; RTasksPerRs; RRsPerNode; RCpusPerTask].
+Definition or_default (o : option str) (d : str) : option str :=
+  match o with Some v => Some v | None => Some d end.
+Definition want_lsf (st : step) (p : piece) : want :=
+  [ (RTasks, match p with PTok f => Some (tok_procs f) | _ => declared (st_res st) RTasks end);
+    (RGpus, declared (st_res st) RGpus);
+    (RBind, or_default (declared (st_res st) RBind) (s "rs"));
+    (RBindGpus, declared (st_res st) RBindGpus);
+    (RTasksPerRs, or_default (declared (st_res st) RTasksPerRs) (s "1"));
+    (RRsPerNode, or_default (declared (st_res st) RRsPerNode) (s "1"));
+    (RCpusPerTask, or_default (match lookup (s "cpus per rs") (st_res st) with
+                               | Some v => if truthy v then Some (render v) else None
+                               | None => None
+                               end) (s "1")) ].
+Definition launch_ok_lsf (st : step) (p : piece) (text : str) : bool :=
+  match read_jsrun text with
+  | Some r => reads_as r (want_lsf st p) jsrun_keys
+  | None => false
+  end.
+
 Definition shebang_of (b : batch) : str := s "#!" ++ render (shell_of (b_kw b)).
 Definition first_line (t : str) : str := match lines_of t with l :: _ => l | [] => [] end.
 
@@ -512,6 +581,13 @@ Definition slurm_script_ok (c : case) (ps : list piece) (text : str) : bool :=
   && forallb (fun k => (count_key k (read_sbatch_all text) <=? 1)%nat) slurm_header_keys
   && negb (containsb launcher_var (script_body text))
   && match_body (launch_ok_slurm (c_step c)) (ps ++ [PText [nl]]) (script_body text).
+Definition lsf_script_ok (c : case) (ps : list piece) (text : str) : bool :=
+  str_eqb (first_line text) (shebang_of (c_batch c))
+  && forallb (fun k => opt_eqb (read_bsub text k) (effective_lsf (c_batch c) (c_step c) k)) lsf_header_keys
+  && lsf_walltime_ok (effective (c_batch c) (c_step c) RWalltime) (read_bsub text RWalltime)
+  && forallb (fun k => (count_key k (read_bsub_all text) <=? 1)%nat) (RWalltime :: lsf_header_keys)
+  && negb (containsb launcher_var (script_body text))
+  && match_body (launch_ok_lsf (c_step c)) (ps ++ [PText [nl]]) (script_body text).
 (** a local script: shebang, then the command verbatim *)
 Definition verbatim_ok (c : case) (cmd text : str) : bool :=
   str_eqb (first_line text) (shebang_of (c_batch c))
@@ -543,7 +619,8 @@ Definition C15_holds (c : case) (o : obs) : bool :=
   | OScript sc =>
     match c_be c with
     | Slurm | Local => script_ok c (slurm_script_ok c) sc
-    | _ => true
+    | Lsf => script_ok c (lsf_script_ok c) sc
+    | Flux => true
     end
   end.
 Definition C15_ok (c : case) (o : obs) : bool := negb (H15 c) || C15_holds c o.
